@@ -9,7 +9,7 @@ CFG = dict(
               "ply_header_describes_body_counts", "ply_header_describes_body_schema",
               "ply_header_describes_body_record_size", "ply_header_describes_body_face_size",
               "ply_record_roundtrip_scalar", "ply_ascii_scalar_reads_raw", "ply_encodings_disagree_uchar_scalar"],
-    streams=[dict(name="c04", n=dict(quick=150, thorough=4000))],
+    streams=[dict(name="c04", n=dict(quick=150, thorough=2500))],
     trusted=T_PLY,
     residue=["ply_roundtrip_full / ply_roundtrip_partial_stmt (whole file: writeMesh then readMesh satisfies RoundTrips) is a def … : Prop, NOT a theorem; it is evaluated on the implementation's write→read output by the c04.holds.roundtrip oracle on every generated mesh × configuration × encoding",
              "ply_encodings_agree_full is a def … : Prop, NOT a theorem (false for 8-bit scalar properties: ply_encodings_disagree_uchar_scalar, known finding); evaluated by c04.holds.encodings_agree",
